@@ -359,6 +359,7 @@ def iteration_of(ref):
 
 
 ARGS = {}
+LOCATIONS = {}
 
 
 def nodes_with_hash(g):
@@ -367,6 +368,7 @@ def nodes_with_hash(g):
 
 def observe_loop(exp, prog):
     ARGS.clear()
+    LOCATIONS.clear()
     """what the properties talk about, read off the live graph"""
     import experiment.model.frontends.flowir as F
     import experiment.model.graph as G
@@ -404,6 +406,14 @@ def observe_loop(exp, prog):
                 except Exception as e:
                     vals.append('ERR:%s' % type(e).__name__)
             resolved[o['name']] = vals
+            # the other way a reference is turned into a path (used for key-outputs): DataReference.location()
+            locs = []
+            for d in drs:
+                try:
+                    locs.append(d.location(wg))
+                except Exception as e:
+                    locs.append('ERR:%s' % type(e).__name__)
+            LOCATIONS[o['name']] = locs
         except Exception as e:
             resolved[o['name']] = ['ERR:%s:%s' % (type(e).__name__, str(e)[:100])]
     return nodes, ph, state, resolved
@@ -502,6 +512,22 @@ def judge_loop(exp, prog, k, viol, where, cnt):
             V('state:current-iteration-differs', {'document': dname, 'expected': es, 'got': st})
         elif st.get('currentCondition') != es['currentCondition']:
             V('state:current-condition-differs', {'document': dname, 'expected': es, 'got': st})
+    for lp, kk in zip(loops, ks):
+        bs_ = {n: st for (n, st, _, _, _) in body_components(lp)}
+        for o in lp['outside']:
+            if o['method'] not in ('ref', 'output'):
+                continue
+            tname = bn(lp, o['target'])
+            want = os.path.join(exp.instanceDirectory.location, 'stages', 'stage%d' % (lp['import_stage'] + bs_[tname]),
+                                '%d#%s' % (kk, tname))
+            if o['method'] == 'output':
+                if o['target'] != 'stop':
+                    continue
+                want = os.path.join(want, 'iteration.next')
+            got = (LOCATIONS.get(o['name']) or ['?'])[0]
+            if os.path.realpath(got) != os.path.realpath(want):
+                V('resolve:location-of-%s-reference-from-outside-the-loop' % o['method'],
+                  {'consumer': o['name'], 'reference': o['ref'], 'expected': want[-120:], 'got': str(got)[-120:]})
     for o in [o for lp in loops for o in lp['outside']]:
         if resolved.get(o['name']) != e_res[o['name']]:
             V('resolve:%s-reference-from-outside-the-loop' % o['method'],
